@@ -90,7 +90,7 @@ func seqHistory(c *core.Ctx, targets []Term, seed int64, n int, tvSeen map[strin
 	h.Events = append(h.Events, TEvent{E: "reset"})
 	nbuf := 0
 	live := []int{}
-	methods := []string{"fields", "fields", "value", "translate", "decode", "tval", "tdef", "reuse"}
+	methods := []string{"fields", "fields", "fields", "value", "value", "translate", "translate", "decode", "decode", "tval", "tval", "tdef", "reuse", "reuse", "reset"}
 	for k := 0; k < n; k++ {
 		var ev Event
 		for try := 0; try < 50; try++ {
@@ -113,6 +113,9 @@ func seqHistory(c *core.Ctx, targets []Term, seed int64, n int, tvSeen map[strin
 			case "tdef":
 				ev.OT = nil
 				ev.NM = []string{"m", "n"}[rng.Intn(2)]
+			case "reset":
+				ev.OT = nil
+				ok = k > 2
 			case "reuse":
 				ok = len(live) > 0
 			case "translate":
